@@ -380,10 +380,17 @@ fn ev_value(log: &mut Log, loc: &Locale) {
         let vs: Vec<Variant> = loc.id.variants().cloned().collect();
         if vs.len() > 12 {
             let mut li = loc.id.clone();
-            for k in 0..vs.len() {
-                li.set_variants(&vs[..k]);
+            let mut probe = |sel: Vec<Variant>| {
+                li.set_variants(&sel);
                 let t = li.to_string();
                 ok = ok && li == t.as_str() && matches!(LanguageIdentifier::from_bytes(t.as_bytes()), Ok(ref back) if *back == li && hash_of(back) == hash_of(&li));
+            };
+            for k in 0..vs.len() { probe(vs[..k].to_vec()); }
+            // leave out one or two early members: every later subtag boundary moves by 5..18 bytes, so that boundaries
+            // fall on every byte offset (buffer sizes, 2^k limits)
+            for j in 0..vs.len().min(24) {
+                probe(vs.iter().enumerate().filter(|(i, _)| *i != j).map(|(_, v)| *v).collect());
+                probe(vs.iter().enumerate().filter(|(i, _)| *i != j && *i != j + 1).map(|(_, v)| *v).collect());
             }
         }
         ok
